@@ -644,6 +644,10 @@ fn inject_faults(
                 lines.insert(at, ins("j", vec![Opd::L("nowhereA".into())]));
                 lines.insert(at, ins("la", vec![r(5), Opd::L("nowhereB".into())]));
                 lines.insert(at, ins("bnez", vec![r(5), Opd::L("nowhereC".into())]));
+                // up to three more, used first and sorting last
+                for name in ["zz_last", "yy_more", "xx_other"].iter().take(ch.below(4)) {
+                    lines.insert(at, ins("jal", vec![Opd::L((*name).into())]));
+                }
                 true
             }
             "duplicate-code-label" | "duplicate-function-label" => {
